@@ -15,6 +15,7 @@ contract(
     # what callers (int_arg, num_arg, _make_range, ...) are prepared for: ValueError and LiquidValueError.
     # OverflowError (inf) and TypeError (None, containers) would escape them.
     raises={"LiquidValueError": None, "ValueError": None},
+    post_exc={"ValueError": ["not isinstance(val, int)"], "LiquidValueError": ["isinstance(val, str)"]},   # integers (bool included) always convert
     returns=Int,
 )
 
@@ -30,12 +31,14 @@ contract(
 
 contract(
     "liquid2.filter:int_arg",
-    props=["C02", "C19"],
-    params={"val": NUMLIKE, "default": Union(NoneT, Const(0))},
+    props=["C02", "C19", "C15"],
+    params={"val": NUMLIKE, "default": Union(NoneT, Const(0), Const(1))},
     globals_=MAXSTR,
     pre=["MAX_STR_INT == 0 or MAX_STR_INT >= 640"],
-    post=[],
+    post=["implies(isinstance(val, int), result == val)"],
+    returns=Int,
     raises={"LiquidTypeError": None, "LiquidValueError": None},
+    post_exc={"LiquidTypeError": ["not isinstance(val, int)"], "LiquidValueError": ["isinstance(val, str)"]},
 )
 
 contract(
